@@ -2592,6 +2592,11 @@ def r104(ctx: Ctx) -> RuleReport:
                                 and any(isinstance(d2, ast.Assign) and any(isinstance(x, ast.Name) and x.id == v for x in ast.walk(d2.targets[0])) for d2 in lp2.body if isinstance(d2, ast.Assign)):
                             endless_bodies.add(cfg.node_of(lp2))
                     stale = cfg.path_avoiding(starts, {un}, lambda nd: nd.id in dn or nd.id == head or nd.id in endless_bodies)
+                    # ... and some complete iteration leaves v alone (otherwise v is ordinary loop state that every continuing iteration renews)
+                    if stale is not None:
+                        full = cfg.path_avoiding(starts, {head}, lambda nd: nd.id in dn or nd.id in endless_bodies)
+                        if full is None:
+                            stale = None
                     if stale is not None:
                         found = (v, u, data_defs[0])
                         break
